@@ -29,6 +29,10 @@ RULE = (
     '(hload) while other datasets store for the same target and algorithm ('
     'hupd); non-trivial there: a kept dataset loads again after such a stor'
     'e. '
+    ' Value classes declare their version (one class per value identity, op'
+    'tionally derived from the class of the first value of the state vector'
+    '); contents include payloads of about 90 KiB that differ only in their'
+    ' last bytes. '
 )
 ASSUMPTIONS = [
     'shelve backend only; client side through the real Connector and an '
